@@ -225,6 +225,13 @@ func (g *schemaGenerator) extractRefNames(t *schemas.Type) (string, string, erro
 		}
 
 		defName = scope[len(prefix):]
+		if defName == "" {
+			return "", "", fmt.Errorf(
+				"%w: value must name a definition: '%s'",
+				errCannotGenerateReferencedType,
+				t.Ref,
+			)
+		}
 	}
 
 	return defName, fileName, nil
